@@ -10,12 +10,14 @@
        index_of returns length l instead, and every theorem assumes `closed` (each sink is in the list), which is
        what the real code needs not to raise.
 
-   topologicalSort:   while anyChange:  loopcount += 1; anyChange = False; if loopcount > 1000: raise
+   topologicalSort:   while anyChange:  loopcount += 1; anyChange = False; if loopcount > 1000: raise 'Excessive loop count'
                           for i in range(len(propagatables)):
                               leaf = propagatables[i]; pos = findFirstDependentPosition(leaf)
+                              if pos == i: raise 'Combinational loop: <leaf> drives one of its own inputs'
                               if pos >= 0 and pos < i:  swap positions pos and i;  anyChange = True
-       pass_from n i l ch = the for loop from index i with n iterations left, over the CURRENT list l;
-       sort_fuel K l      = at most K passes; Some l' when a pass reports no change, None = the raise
+       pass_from n i l ch = the for loop from index i with n iterations left, over the CURRENT list l:
+                            PassOk l' ch' | PassLoop x (the raise, x = the leaf named in the message);
+       sort_fuel K l      = at most K passes: Sorted l' when a pass reports no change, LoopError x, or LimitError
                             (the code's constant is K = 1000: passes 1..1000 run, the 1001st raises). *)
 From Coq Require Import List Arith Bool PeanoNat.
 Import ListNotations.
@@ -44,24 +46,30 @@ Fixpoint set_nth (l : list nat) (i v : nat) : list nat :=
 Definition swap (l : list nat) (p i : nat) : list nat :=
   set_nth (set_nth l p (nth i l 0)) i (nth p l 0).
 
-Fixpoint pass_from (n i : nat) (l : list nat) (ch : bool) : list nat * bool :=
+Inductive pass_result := PassOk (l : list nat) (ch : bool) | PassLoop (x : nat).
+Inductive sort_result := Sorted (l : list nat) | LoopError (x : nat) | LimitError.
+
+Fixpoint pass_from (n i : nat) (l : list nat) (ch : bool) : pass_result :=
   match n with
-  | 0 => (l, ch)
+  | 0 => PassOk l ch
   | S n' =>
       match first_dep l (nth i l 0) with
-      | Some p => if Nat.ltb p i then pass_from n' (S i) (swap l p i) true
+      | Some p => if Nat.eqb p i then PassLoop (nth i l 0)
+                  else if Nat.ltb p i then pass_from n' (S i) (swap l p i) true
                   else pass_from n' (S i) l ch
       | None => pass_from n' (S i) l ch
       end
   end.
 
-Definition pass (l : list nat) : list nat * bool := pass_from (length l) 0 l false.
+Definition pass (l : list nat) : pass_result := pass_from (length l) 0 l false.
 
-Fixpoint sort_fuel (K : nat) (l : list nat) : option (list nat) :=
+Fixpoint sort_fuel (K : nat) (l : list nat) : sort_result :=
   match K with
-  | 0 => None
-  | S K' => let '(l', ch) := pass l in
-            if ch then sort_fuel K' l' else Some l'
+  | 0 => LimitError
+  | S K' => match pass l with
+            | PassLoop x => LoopError x
+            | PassOk l' ch => if ch then sort_fuel K' l' else Sorted l'
+            end
   end.
 End Sort.
 
@@ -70,5 +78,9 @@ Definition succ_tbl (tbl : list (list nat)) (x : nat) : list nat := nth x tbl []
 
 (* Simulator.topologicalSort on a netlist whose n propagatable leaves were instantiated in the order 0..n-1 *)
 Definition py4hw_loop_limit : nat := 1000.
-Definition topologicalSort (tbl : list (list nat)) : option (list nat) :=
+Definition topologicalSort (tbl : list (list nat)) : sort_result :=
   sort_fuel (succ_tbl tbl) py4hw_loop_limit (seq 0 (length tbl)).
+
+(* printable encoding for the correspondence cases: (0, order) | (1, [leaf named by the loop error]) | (2, []) *)
+Definition encode (r : sort_result) : nat * list nat :=
+  match r with Sorted l => (0, l) | LoopError x => (1, [x]) | LimitError => (2, []) end.
